@@ -79,6 +79,16 @@ CLAIMED = {
         "plus C16-K3 (exponential blow-up = hang). Tie: K-front on import graphs over 1-5 files (trees, DAGs, cycles, self loops, "
         "missing leaves, decoys, traps) x placements x spellings x include dirs, with an oracle based on the documented search order.",
    note="Trusted: Coq kernel+vm_compute; ANTLR lexer/parser (the model starts from the dumped parse tree); pydantic; the harness generators/mutators and the Python reference readings used as oracles. Known findings C16-K1, C16-K2, C16-K3.", technique="Coq proof (search order, bounded recursion, refutation witnesses) + vm_compute correspondence on import graphs", design="7/C16"),
+ 'C11': dict(
+   text="Coq theorems on the front-end model for declaration lists of any length: rule diagnostics are permutation-invariant as a "
+        "multiset (hence acceptance), every reference binds to the same declaration under any registration order, and splitting "
+        "the declarations over imported/importing files gives the same diagnostics and registry. Equality of generated files is "
+        "decided on the implementation by a metamorphic correspondence: base / re-layout / permutation (top level and inside "
+        "namespaces) / split into one or two imported files, through parse and generation of all targets, comparing acceptance, "
+        "diagnostics modulo position and every generated file with the banner line removed.",
+   note="Trusted: Coq kernel; the real pipeline is the subject of the metamorphic runs (no model of the generators here). Known "
+        "finding C11-K1 (order decides which of two colliding declarations survives; consequence of C15).",
+   technique="Coq proof (permutation/split invariance of diagnostics and bindings) + metamorphic comparison of the implementation's outputs", design="7/C11"),
 }
 PENDING_REASON = "check not built yet in this session (work in progress; see DESIGN.md section 10 build order)"
 HOOK_COMMITS = []
